@@ -395,6 +395,24 @@ def inventory_of(ctx: Context, conv: ClassInfo):
             if isinstance(v, (ast.List, ast.Tuple)):
                 for elt in v.elts:
                     names |= _flatten_names(he.eval(elt, frame))
+    # lists spliced into a returned list (names.extend(other), names += other, names = a + b) are members too
+    grew = True
+    while grew:
+        grew = False
+        for node in walk_no_nested(fi.node):
+            src = []
+            if isinstance(node, ast.Call) and isinstance(node.func, ast.Attribute) and node.func.attr == 'extend' and node.args \
+                    and isinstance(node.func.value, ast.Name) and node.func.value.id in returned:
+                src = [node.args[0]]
+            elif isinstance(node, ast.AugAssign) and isinstance(node.op, ast.Add) and isinstance(node.target, ast.Name) and node.target.id in returned:
+                src = [node.value]
+            elif isinstance(node, ast.Assign) and isinstance(node.targets[0], ast.Name) and node.targets[0].id in returned:
+                v = node.value
+                src = [v.left, v.right] if isinstance(v, ast.BinOp) and isinstance(v.op, ast.Add) else ([v] if isinstance(v, ast.Name) else [])
+            for e in src:
+                if isinstance(e, ast.Name) and e.id not in returned:
+                    returned.add(e.id)
+                    grew = True
     for node in walk_no_nested(fi.node):
         if isinstance(node, (ast.Assign, ast.AnnAssign)):
             tgt = node.targets[0] if isinstance(node, ast.Assign) else node.target
